@@ -1,6 +1,12 @@
 """C09 -- list and stat are exact."""
 import oracles, scen
 from units.mk import Unit, COMMON
+
+
+def _conc(ctx):
+    from units import conc
+    conc.conc_sessions(ctx, int((20 if ctx.tier == "quick" else 300) * ctx.budget))
+
 Unit([("sync", scen.gen_sync_read, 1)], (oracles.o_c09, oracles.o_c08, oracles.o_lean_sync) + COMMON,
      "listings of 0,1,2,5,40 entries with names of 1..255 arbitrary bytes (NUL, '/', invalid UTF-8), 32-bit edge values in every field, any WRTE "
-     "packetisation of the reply; stat triples likewise. Non-trivial/distinct as for C01.", 120, 3000).export(globals())
+     "packetisation of the reply; stat triples likewise. Non-trivial/distinct as for C01.", 120, 3000, extra_run=_conc).export(globals())
